@@ -133,10 +133,11 @@ PLAN['C17'] = {
 }
 
 
-def light(name, acts, maxn, adds, stack=0, und=0, props=None, **kw):
+def light(name, acts, maxn, adds, stack=0, und=0, props=None, minn=99, initdead=0, initheld=0, **kw):
     st = {
         'kind': 'gen_replay', 'name': name, 'module': 'LightClient', 'fam': 'light', 'spec': 'Spec', 'view': 'View',
-        'constants': {'MaxN': maxn, 'MaxAdds': adds, 'MaxStack': stack, 'MaxUnd': und, 'Acts': S(acts)},
+        'constants': {'MaxN': maxn, 'MaxAdds': adds, 'MaxStack': stack, 'MaxUnd': und, 'Acts': S(acts),
+                      'MinN': minn, 'InitDead': initdead, 'InitHeld': initheld},
         'invariants': ['TypeOK'],
     }
     if props:
@@ -798,3 +799,32 @@ SPARSE_RULE = (' Sparse tall forests (stage drive_sparse): scripted histories on
 for _p in ('C09', 'C01', 'C10'):
     PLAN[_p]['stages'] = (lambda f: (lambda tier, seed: f(tier, seed) + [drive_sparse(tier)]))(PLAN[_p]['stages'])
     PLAN[_p]['rule'] += SPARSE_RULE
+
+
+# --------------------------------------------------------------------------- light client on forests of 11-16 leaves
+# The exhaustive light-client stages stop at 6-7 leaves.  Additions that are lifted over more than one level of empty
+# roots, with held leaves both inside and outside the lifted subtree, need 14 leaves or more (found: Proof.Undo left
+# its positions unsorted after moving them back down, fixed in the repository).  Wide configurations of
+# spec/LightClient.tla start from every dense state of that size.
+def light_wide(tier, acts, name='light_wide'):
+    q = tier == 'quick'
+    u = 1 if 'undoblock' in acts else 0
+    if q:
+        return [light(name, acts, 16, 2, stack=u, und=u, minn=14, initdead=0, initheld=2, timeout=900)]
+    return [light(name, acts, 16, 5, stack=u, und=u, minn=11, initdead=0, initheld=2, timeout=7200),
+            light(name + '_dead', acts, 16, 3, stack=u, und=u, minn=13, initdead=1, initheld=1, timeout=7200)]
+
+
+WIDE_LIGHT_RULE = (' Stage light_wide: wide configurations of spec/LightClient.tla - every state with 14-15 (thorough: 11-15) leaves, all live '
+                   '(thorough also: one dead), and at most two held leaves is an initial state; from each, every block that deletes at most one '
+                   'leaf or the live leaves of one aligned subtree and adds up to %s leaves (at most one remembered)%s.')
+_c08w = PLAN['C08']['stages']
+PLAN['C08']['stages'] = lambda tier, seed: _c08w(tier, seed) + light_wide(tier, ['block', 'undoblock'])
+PLAN['C08']['rule'] += WIDE_LIGHT_RULE % ('2 (thorough: 5)', ', and its undo')
+PLAN['C08']['bounds'] = {'quick': PLAN['C08']['bounds']['quick'] + '; wide: n in 14..15, adds 0..2, held<=2',
+                         'thorough': PLAN['C08']['bounds']['thorough'] + '; wide: n in 11..15, adds 0..5, held<=2 (and one dead leaf, n in 13..15, held<=1)'}
+_c07w = PLAN['C07']['stages']
+PLAN['C07']['stages'] = lambda tier, seed: _c07w(tier, seed) + light_wide(tier, ['block'])
+PLAN['C07']['rule'] += WIDE_LIGHT_RULE % ('2 (thorough: 5)', '')
+PLAN['C07']['bounds'] = {'quick': PLAN['C07']['bounds']['quick'] + '; wide: n in 14..15, adds 0..2, held<=2',
+                         'thorough': PLAN['C07']['bounds']['thorough'] + '; wide: n in 11..15, adds 0..5, held<=2 (and one dead leaf, n in 13..15, held<=1)'}
